@@ -201,29 +201,32 @@ def multicomm_transactions(ctx):
 
 @rule('C16.R3', min_instances=1)
 def rate_limiter_state(ctx):
-    """the guard `now >= self.<attr> + interval` must store self.<attr> on the path to the reconnect attempt"""
+    """the guard `now >= self.<attr> + interval` is worth something only if self.<attr> is stored BEFORE the reconnect attempt it
+    guards: the store dominates the attempt (a second caller arriving while the attempt is still blocking then finds the new
+    stamp and fails at once; a store after the attempt - in a finally - lets every such caller make an attempt of its own)"""
     m = ctx.m
     f = m.method(IOBASE, 'check_connection', inherited=False)
     ctx.analysed(f)
+    cfg = CFG(f.node, m, f.module)
     found = 0
-    for n in body_walk(f.node):
-        if not isinstance(n, ast.If):
-            continue
-        attrs = {x.attr for x in ast.walk(n.test) if isinstance(x, ast.Attribute) and dotted(x.value) == 'self' and 'last' in x.attr}
-        if not attrs or not any(isinstance(x, ast.Compare) for x in ast.walk(n.test)):
-            continue
-        for attr in sorted(attrs):
-            found += 1
-            stores = [s for st in n.body for t, v, s in attr_stores(ast.Module(body=[st], type_ignores=[]), whole_tree=True) if t.attr == attr and dotted(t.value) == 'self']
-            attempt = [c for st in n.body for c in calls_in(st) if call_attr(c) in ('read_is_connected', 'connectStart')]
-            ok = bool(stores) and bool(attempt) and all(lexpos(stores[0]) < lexpos(c) for c in attempt)
-            dead = [t.id for st in n.body for x in ast.walk(st) if isinstance(x, ast.Assign) for t in x.targets
-                    if isinstance(t, ast.Name) and t.id == attr]
-            ctx.check(ok, f'{f.qualname}:rate limit state self.{attr} updated', n,
-                      f'self.{attr} is stored before the reconnect attempt',
-                      f'the guard reads self.{attr} but the branch never stores it' +
-                      (f' (it assigns the local `{attr}` instead, which is never read)' if dead else '') +
-                      ': the reconnect rate is never limited, every communicate() on a dead link tries to connect again', f)
+    attrs = set()
+    for t in cfg.nodes:
+        if t.kind == 'test' and not isinstance(t.ast, ast.stmt) and any(isinstance(x, ast.Compare) for x in ast.walk(t.ast)):
+            attrs |= {x.attr for x in ast.walk(resolved(t.ast, f.node)) if isinstance(x, ast.Attribute) and dotted(x.value) == 'self' and 'last' in x.attr}
+    attempt = [c for c in calls_in(f.node) if call_attr(c) in ('read_is_connected', 'connectStart')]
+    aids = [i for c in attempt for i in cfg.node_of(c)]
+    for attr in sorted(attrs):
+        found += 1
+        stores = [s_ for t_, v, s_ in attr_stores(f.node) if t_.attr == attr and dotted(t_.value) == 'self']
+        sids = [i for s_ in stores for i in cfg.node_of(s_)]
+        ok = bool(sids) and bool(aids) and all(cfg.dominates(sids, i) for i in aids)
+        dead = [x.id for x in body_walk(f.node) if isinstance(x, ast.Name) and isinstance(x.ctx, ast.Store) and x.id == attr]
+        ctx.check(ok, f'{f.qualname}:rate limit state self.{attr} updated', stores[0] if stores else f.node,
+                  f'self.{attr} is stored before the reconnect attempt',
+                  (f'the guard reads self.{attr} but it is never stored' + (f' (the local `{attr}` is assigned instead, which is never read)' if dead else '')
+                   if not sids else f'`{src(stores[0])}` does not come before the reconnect attempt on every path (it follows it): while one attempt is blocking, every '
+                   'other caller still sees the old stamp and makes an attempt of its own') +
+                  ': the reconnect rate is not limited', f)
     if not found:
         raise AnchorMissing('rate limit guard (comparison with self._last_connect_attempt) not found in check_connection', violation='frappy.io.IOBase.check_connection:rate limit guard present')
 
@@ -628,7 +631,7 @@ def calls_fail_or_return_a_reply(ctx):
             good = cfg.reach([t.id], labels={'F' if neg else 'T'}, avoid=[t.id])
             bad_ = [b for b, lab in cfg.succ[t.id] if lab == ('T' if neg else 'F')]
             rets = {i for x in body_walk(cc.node) if isinstance(x, ast.Return) for i in cfg.ids(x)}
-            ok = bool(rets & good) and side_never_completes(cfg, t.id, 'T' if neg else 'F')
+            ok = (bool(rets & good) or cfg.exit in good) and side_never_completes(cfg, t.id, 'T' if neg else 'F')      # (a return, or the end of the method)
             ctx.check(ok, f'{cc.qualname}:a failed reconnect raises', t.ast, 'return on success, raise otherwise',
                       f'`{src(t.ast)}`: a failed reconnect attempt returns normally (the command is sent into a closed connection) / a successful one raises', cc)
     for meth in ('readline', 'readbytes'):
